@@ -441,8 +441,15 @@ def check_rollback(rep):
     R = rep.rule('R-ROLLBACK-CLEAN', 'asm block decoders (both kernels): at every exit that returns ISAL_END_INPUT, each parked-output field of the state (write_overflow_lits/len, '
                  'copy_overflow_length/distance) holds either the value it had on entry or a stored constant 0 - reaching-definitions of the field per exit code; a non-zero parked value never reaches the roll-back exit',
                  floor=2, unit='decoders')
-    codes, _ = mirror.c_values('default', ['igzip_lib.h'], [('END', 'ISAL_END_INPUT')], 'c02_codes')
+    codes, _ = mirror.c_values('default', ['igzip_lib.h'], [('END', 'ISAL_END_INPUT'), ('OVF', 'ISAL_OUT_OVERFLOW')], 'c02_codes2')
     END = codes['END']
+    OVF = codes['OVF']
+    R3 = rep.rule('R-PARK-EOB-ADJUST', 'asm block decoders: when the literals of a packed table entry are parked (store to write_overflow_len) and a forward path from there marks the block finished (store to block_state: the '
+                  'last symbol of the entry was end-of-block), the path stores write_overflow_len a second time first - the count parked at first includes the end-of-block symbol, which is not a byte to emit',
+                  floor=2, unit='decoders')
+    R2 = rep.rule('R-PARKED-EXITCODE', 'asm block decoders (both kernels): output that did not fit is parked in the state (write_overflow_lits/len, copy_overflow_length/distance) only together with the return code '
+                  'ISAL_OUT_OVERFLOW: every path from a store that parks output to a return which does not jump back into the decode loop ends with rax = ISAL_OUT_OVERFLOW: '
+                  'the caller of a decoder that says "done" or "error" does not go on decoding over parked bytes', floor=2, unit='decoders')
     off = c19.field_offsets('struct inflate_state', PARKED)
     sizes = {n: 4 for n in PARKED}
     # ---- asm
@@ -517,6 +524,85 @@ def check_rollback(rep):
                             sample='%s: END_INPUT exit leaves %s = entry value or 0' % (sym, n) if n == 'write_overflow_len' else None)
         if not nexit:
             raise AnalysisBroken('%s: no exit returning ISAL_END_INPUT found' % sym)
+        # ---- R-PARKED-EXITCODE: forward-only paths from every parking store to a return
+        R2.instance()
+        order = {a_: n_ for n_, a_ in enumerate(f.addrs)}
+        npark = 0
+        for sa, lst in sorted(stores.items()):
+            if all(v == 'Z' for _, v in lst):
+                continue
+            npark += 1
+            bad = None
+            v0 = fl.rd(fl.IN[sa], 'rax') if sa in fl.IN else None
+            rv0 = (v0[1] & 0xffffffff) if (v0 is not None and v0[0] == 'AFF' and v0[2] == 0) else None
+            seen, work = set(), [(sa, rv0)]
+            while work and bad is None:
+                x, rv = work.pop()
+                if (x, rv) in seen:
+                    continue
+                seen.add((x, rv))
+                i = u.insns[x]
+                if i.ops and i.ops[0] in ('rax', 'eax') and i.mn in ('mov', 'xor', 'or', 'and', 'add', 'sub', 'lea', 'movzx', 'pop'):
+                    if i.mn == 'mov' and re.match(r'^(0x[0-9a-f]+|-?\d+)$', i.ops[1]):
+                        rv = int(i.ops[1], 0) & 0xffffffff
+                    elif i.mn == 'xor' and i.ops[0] == i.ops[1]:
+                        rv = 0
+                    else:
+                        rv = 'unknown'
+                if i.mn == 'ret':
+                    if rv != (OVF & 0xffffffff):
+                        bad = (i, rv)
+                    continue
+                for nx in u.succ(f, x):
+                    if nx > x:                 # forward edges only: a jump back into the decode loop continues decoding (and has to come out again through a parking exit)
+                        work.append((nx, rv))
+            R2.check(bad is None, '%s: %s' % (u.name, u.where(u.insns[sa], f)), 'after "%s" parks output in the state, a path that never jumps back into the decode loop reaches the return with rax = %s, not ISAL_OUT_OVERFLOW: '
+                     'the caller goes on (next block / end of stream) over the parked bytes' % (u.insns[sa].text, ('%#x' % bad[1]) if bad and isinstance(bad[1], int) else (bad[1] if bad else '')),
+                     key='R-PARKED-EXITCODE|%s|%#x' % (sym, sa - f.entry), sample='%s: every forward path from "%s" returns ISAL_OUT_OVERFLOW' % (sym, u.insns[sa].text.split('  ')[0]) if npark == 1 else None)
+        if npark < 2:
+            raise AnalysisBroken('%s: fewer than 2 parking stores found' % sym)
+        # ---- R-PARK-EOB-ADJUST: literals parked from a packed entry whose last symbol turns out to be end-of-block
+        R3.instance()
+        bs_off = c19.field_offsets('struct inflate_state', ['block_state'])['block_state']
+        bs_stores = {a.insn.addr for a in info['accesses'] if a.kind in ('store', 'rmw') and a.addr[0] == 'P' and a.addr[1] == 'STATE' and a.addr[2] is not None and a.addr[2][1] == 0 and a.addr[2][0] == bs_off}
+        wl = sorted(sa for sa, lst in stores.items() if any(n == 'write_overflow_len' and v != 'Z' for n, v in lst))
+        if not bs_stores or not wl:
+            raise AnalysisBroken('%s: no store to block_state / write_overflow_len recognised' % sym)
+        nfin = 0
+        for sa in wl:
+            seen, work, bad = set(), [(s_, False) for s_ in u.succ(f, sa) if s_ > sa], None
+            while work and bad is None:
+                x, adj = work.pop()
+                if (x, adj) in seen:
+                    continue
+                seen.add((x, adj))
+                if x in wl:
+                    adj = True
+                if x in bs_stores:
+                    nfin += 1
+                    if not adj and not any(w > sa and w < x for w in wl if w != sa and False):
+                        bad = u.insns[x]
+                    continue
+                for nx in u.succ(f, x):
+                    if nx > x:
+                        work.append((nx, adj))
+            # the store itself may be the adjusting one (second store of the sequence): only the FIRST store of a straight-line parking sequence carries the obligation
+            def fwd(src):
+                s2, w2 = set(), [s_ for s_ in u.succ(f, src) if s_ > src]
+                while w2:
+                    y = w2.pop()
+                    if y in s2:
+                        continue
+                    s2.add(y)
+                    w2 += [n_ for n_ in u.succ(f, y) if n_ > y]
+                return s2
+            first = not any(w != sa and sa in fwd(w) for w in wl)
+            if first:
+                R3.check(bad is None, '%s: %s' % (u.name, u.where(u.insns[sa], f)), 'after "%s" parks the symbols of a packed table entry, a forward path reaches the store that marks the block finished (%s) without a second store to '
+                         'write_overflow_len: the parked count still includes the end-of-block symbol, and the caller emits its low byte as a literal' % (u.insns[sa].text, u.where(bad, f) if bad else ''),
+                         key='R-PARK-EOB-ADJUST|%s|%#x' % (sym, sa - f.entry), sample='%s: the count is stored again before the block is marked finished' % sym)
+        if nfin == 0:
+            raise AnalysisBroken('%s: no forward path from a literal-parking store to the block-finished store: the rule has nothing to decide' % sym)
     R.notes.append('portable C decoder: not decided by this rule - in the C loop the parked fields are followed by value-dependent returns (avail_out == 0 implies copy_overflow_length > 0 implies return), which a reaching-definitions analysis cannot separate from the roll-back exits')
 
 
